@@ -434,7 +434,13 @@ def gen_dot(g):
 def gen_preserve(g):
     rng = g.rng
     op = rng.choice(PRESERVE)
-    U = g.pick_axes(rng.randint(1, 4), maxprod=200)
+    if op in ("roll", "flip") and rng.random() < 0.5:
+        # axes of pairwise different lengths > 1, so that acting on the wrong axis (or with another axis' length) shows
+        U = g.pick_axes(rng.randint(2, 4), maxprod=400, sizes=[2, 3, 4, 5, 7])
+        for a, sz in zip(U, rng.sample([2, 3, 4, 5, 7], len(U))):
+            a.size = sz
+    else:
+        U = g.pick_axes(rng.randint(1, 4), maxprod=200)
     mark_some(rng, U, 1, 1 if op in ("sort", "argsort") else 2)
     order = g.perm(U)
     ins = [g.arrange(order)]
